@@ -280,6 +280,8 @@ impl AbstractTree for BlobTree {
         let config = self.tree_config();
         let mut versions = self.get_version_history_lock();
 
+        let old_version = versions.latest_version().version;
+
         versions.upgrade_version(
             &config.path,
             |v| {
@@ -292,7 +294,19 @@ impl AbstractTree for BlobTree {
             },
             &config.seqno,
             &config.visible_seqno,
-        )
+        )?;
+
+        // NOTE: The new version does not reference any of the old files anymore,
+        // so they can be deleted once the last reader (snapshot) lets go of them
+        for table in old_version.iter_tables() {
+            table.mark_as_deleted();
+        }
+
+        for blob_file in old_version.blob_files.iter() {
+            blob_file.mark_as_deleted();
+        }
+
+        Ok(())
     }
 
     fn major_compact(&self, target_size: u64, seqno_threshold: SeqNo) -> crate::Result<()> {
